@@ -116,6 +116,10 @@ def run(P, R, tier):
     iflds = fields.init_fields_of(P, "IVectorStats", ("dim_c", "dim_d", "dim_t"))
     fields.check_add(P, R, "IVectorStats", iflds, rule="FIELDS.add[IVectorStats]")
     fields.check_iadd(P, R, "IVectorStats", iflds, rule="FIELDS.iadd[IVectorStats]")
+    from ..engines import buf as _buf
+    _buf.check(P, R, ["gmm"])
+    from ..engines import carry as _carry
+    _carry.check_blocked_loops(P, R, ["gmm"], scope="gmm:(e_step|log_weighted_likelihood|GMMMachine\\.acc_stats|\\w+$)")
     from ..engines import dtype as _dt
     n_dt = _dt.check_function(P, R, "gmm:e_step", raw_params=("data",))
     R.floor("DTYPE.raw sites (gmm e_step)", n_dt, 2)
@@ -146,3 +150,4 @@ def run(P, R, tier):
 
 EXPLANATION += " Added after the seeded rounds: (DTYPE.raw) no product / square of the samples is computed in the dtype of the input array; (OWN.iadd-alias) `a += b` stores no array of b into a; (OPT) default statistics fields are selected when the argument is absent, not when it is given; (COVER.fold / COVER.pairs) the M-step folds every block's statistics, and a neighbour-pairing reduction keeps the unpaired element."
 EXPLANATION += ' Tree-shaped folds of the block statistics are decided by COVER (every element added exactly once, for every number of blocks).'
+EXPLANATION += " (BUF.stale) no scratch buffer is refilled through a prefix view and read whole (rows of the previous block would be added for a ragged last block); DTYPE.raw follows the samples into the helpers of the package that receive them."
